@@ -426,6 +426,14 @@ pub fn histories(runs: u64, len: usize, keys: i64, seed: u64) {
         let take = if rng.chance(1, 3) { rng.below(total as u64 + 1) as usize } else { total + 1 };
         for _ in 0..take {
             let back = rng.chance(1, 2);
+            if rng.chance(1, 4) {
+                // the derived forms: nth / nth_back (skip and step_by are built on them), also past the end
+                let n = if rng.chance(1, 4) { it.len() + rng.below(2) as usize } else { rng.below(3) as usize };
+                let x = if back { it.nth_back(n) } else { it.nth(n) };
+                ev.push(format!("{{\"op\":\"{}\",\"k\":{},\"v\":0,\"ret\":{},\"rv\":{},\"len\":{},\"shape\":[]}}", if back { "iter_nth_back" } else { "iter_nth" }, n,
+                    x.map(|p| p.0).unwrap_or(-1), x.map(|p| p.1).unwrap_or(-1), it.len()));
+                continue;
+            }
             let x = if back { it.next_back() } else { it.next() };
             ev.push(format!("{{\"op\":\"{}\",\"k\":0,\"v\":0,\"ret\":{},\"rv\":{},\"len\":{},\"shape\":[]}}", if back { "iter_back" } else { "iter_next" },
                 x.map(|p| p.0).unwrap_or(-1), x.map(|p| p.1).unwrap_or(-1), it.size_hint().0));
